@@ -561,41 +561,37 @@ func clientQueryWorlds(c *Ctx, rule string) {
 	}
 }
 
-// createdOnlyWithServices: in the plugin's generateFile the call that creates
-// this unit comes after `if len(file.Services) == 0 { return nil }`.
+// createdOnlyWithServices: the plugin's generateFile creates this unit in no explored variant in which the file declares
+// no service (and in some variant in which it declares one). Decided on the exploration of generateFile (every arm of
+// every guard), not on the spelling of the guard.
 func (c *Ctx) createdOnlyWithServices(ri RootInfo) bool {
 	gf := c.P.Func(ri.Pkg, "Generator.generateFile")
 	if gf == nil {
 		return false
 	}
-	decl := c.P.Decls[gf]
-	info := c.P.DeclPkg[gf].TypesInfo
-	guardEnd := token.NoPos
-	for _, st := range decl.Body.List {
-		if ifs, ok := st.(*ast.IfStmt); ok && types.ExprString(ifs.Cond) == "len(file.Services) == 0" && terminates(ifs.Body) {
-			guardEnd = ifs.End()
-		}
-	}
-	if !guardEnd.IsValid() {
-		return false
-	}
-	after := false
-	ast.Inspect(decl.Body, func(n ast.Node) bool {
-		if call, ok := n.(*ast.CallExpr); ok && call.Pos() > guardEnd {
-			if cal := Callee(info, call); cal != nil {
-				if cal == ri.Fn {
-					after = true
-				}
-				for _, f := range c.P.Reach(cal) {
-					if f == ri.Fn {
-						after = true
-					}
-				}
+	ex := c.Explore(gf, 1, 30000)
+	with, without := false, false
+	for _, v := range ex.Variants {
+		noSvc := false
+		for k, val := range v.Dec {
+			if eraseIters(k) == "n:file.Services" && val >= 0 && val < len(countArms) && countArms[val] == 0 {
+				noSvc = true
 			}
 		}
-		return true
-	})
-	return after
+		has := false
+		for _, u := range v.Units {
+			if u.Suffix() == ri.Suffix {
+				has = true
+			}
+		}
+		if has && noSvc {
+			without = true
+		}
+		if has && !noSvc {
+			with = true
+		}
+	}
+	return with && !without
 }
 
 func holeFreeKey(k string) string {
